@@ -7,7 +7,8 @@ package main
 
 // Epoch-set invariant (used by C08): the map exists and never stores a nil *Epoch. Established by NewMultiEpoch,
 // preserved by the three writers (which require ep != nil), relied upon by the three getters.
-//@ spec func validEpochSet(m *MultiEpoch) bool = m.epochs != nil && (forall k uint64 :: has(m.epochs, k) ==> m.epochs[k] != nil)
+// (C08, part b) ... and every stored epoch is a loaded epoch: validEpoch / validBlocktime, contracts_verif_c08b.go.
+//@ spec func validEpochSet(m *MultiEpoch) bool = m.epochs != nil && (forall k uint64 :: has(m.epochs, k) ==> m.epochs[k] != nil && validEpoch(m.epochs[k]) && validBlocktime(m.epochs[k]))
 
 //@ func (*MultiEpoch) GetEpoch
 //@   requires held(m.mu) == 0
@@ -15,6 +16,7 @@ package main
 //@   noframe
 //@   requires validEpochSet(m)
 //@   ensures result1 == nil ==> result0 != nil
+//@   ensures result1 == nil ==> validEpoch(result0) && validBlocktime(result0)
 
 //@ func (*MultiEpoch) HasEpoch
 //@   requires held(m.mu) == 0
@@ -26,7 +28,7 @@ package main
 //@   ensures held(m.mu) == 0
 //@   noframe
 //@   requires validEpochSet(m)
-//@   requires ep != nil
+//@   requires ep != nil && validEpoch(ep) && validBlocktime(ep)
 //@   ensures validEpochSet(m)
 
 //@ func (*MultiEpoch) RemoveEpoch
@@ -44,7 +46,7 @@ package main
 //@   ensures held(m.mu) == 0
 //@   noframe
 //@   requires validEpochSet(m)
-//@   requires ep != nil
+//@   requires ep != nil && validEpoch(ep) && validBlocktime(ep)
 //@   ensures validEpochSet(m)
 
 //@ func (*MultiEpoch) ReplaceOrAddEpoch
@@ -52,7 +54,7 @@ package main
 //@   ensures held(m.mu) == 0
 //@   noframe
 //@   requires validEpochSet(m)
-//@   requires ep != nil
+//@   requires ep != nil && validEpoch(ep) && validBlocktime(ep)
 //@   ensures validEpochSet(m)
 
 //@ func (*MultiEpoch) HasEpochWithSameHashAsFile
@@ -78,6 +80,7 @@ package main
 //@   ensures held(m.mu) == 0
 //@   noframe
 //@   ensures result1 == nil ==> result0 != nil
+//@   ensures result1 == nil ==> validEpoch(result0) && validBlocktime(result0)
 //@   requires validEpochSet(m)
 
 //@ func (*MultiEpoch) GetOldestAvailableEpoch
@@ -85,6 +88,7 @@ package main
 //@   ensures held(m.mu) == 0
 //@   noframe
 //@   ensures result1 == nil ==> result0 != nil
+//@   ensures result1 == nil ==> validEpoch(result0) && validBlocktime(result0)
 //@   requires validEpochSet(m)
 
 //@ func (*MultiEpoch) GetFirstAvailableBlock
